@@ -122,11 +122,9 @@ func specBinary(l interface{}, op token.TokenType, r interface{}) specResult {
 			return specResult{cls: clsError}
 		}
 		if !inInt64Range(a) || !inInt64Range(b) {
-			if math.Trunc(a) == a {
-				if math.Trunc(b) == b {
-					return specResult{cls: clsOpen} // integral values outside int64: not specified
-				}
-			}
+			// the operators act on 64-bit two's-complement integers: a number outside
+			// [-2^63, 2^63) (±Inf included) is not one, and an operand an operator does not
+			// support never yields a value
 			return specResult{cls: clsError}
 		}
 		if math.Trunc(a) != a {
@@ -352,10 +350,7 @@ func specUnary(op token.TokenType, x interface{}) specResult {
 			return specResult{cls: clsError}
 		}
 		if !inInt64Range(a) {
-			if math.Trunc(a) == a {
-				return specResult{cls: clsOpen}
-			}
-			return specResult{cls: clsError}
+			return specResult{cls: clsError} // not a 64-bit integer
 		}
 		if math.Trunc(a) != a {
 			return specResult{cls: clsError}
